@@ -30,9 +30,10 @@ ASSUMPTIONS = [
 
 RETRYABLE = {"conn-timeout", "conn-error", "429", "502", "503", "504", "items-429", "items-503"}
 BASE = ["ok", "conn-timeout", "conn-error", "429", "502", "503", "504", "400", "401", "403", "404", "500", "transport-error"]
-BULK_EXTRA = ["items-429", "items-503", "items-400", "items-429+400"]
+BULK_EXTRA = ["items-429", "items-503", "items-400", "items-429+400", "items-11x429+400"]
 
-DOCS = [{"_source": {"n": 1}}, {"_source": {"n": 2}}, {"_source": {"n": 3, "s": "é"}}]
+# 14 documents per bulk, so that more than ten items of one response can fail
+DOCS = [{"_source": {"n": 1}}, {"_source": {"n": 2}}, {"_source": {"n": 3, "s": "é"}}] + [{"_source": {"n": k}} for k in range(4, 15)]
 
 TEMPLATE = json.dumps({"index_patterns": ["rally-*"], "template": {"settings": {"index": {"number_of_shards": 1}}}})
 
@@ -109,6 +110,11 @@ def _client():
                         items[-1] = {"index": {"status": 503, "error": {"type": "unavailable_shards_exception"}}}
                     elif kind == "items-400":
                         items[0] = {"index": {"status": 400, "error": {"type": "mapper_parsing_exception"}}}
+                    elif kind == "items-11x429+400":
+                        # eleven retryable item errors first, one non-retryable item error behind them
+                        for k in range(min(11, n)):
+                            items[k] = {"index": {"status": 429, "error": {"type": "es_rejected_execution_exception"}}}
+                        items[min(11, n - 1)] = {"index": {"status": 400, "error": {"type": "mapper_parsing_exception"}}}
                     elif kind == "items-429+400":
                         items[0] = {"index": {"status": 429, "error": {"type": "es_rejected_execution_exception"}}}
                         items.append({"index": {"status": 400, "error": {"type": "mapper_parsing_exception"}}})
@@ -162,6 +168,7 @@ CAUSE_TOKEN = {
     "transport-error": "cannot-serialize",
     "items-400": "mapper_parsing_exception",
     "items-429+400": "mapper_parsing_exception",
+    "items-11x429+400": "mapper_parsing_exception",
 }
 EXHAUST_TOKEN = {
     "conn-timeout": "timeout",
